@@ -152,7 +152,7 @@ P("C05", "exploration",
 P("C11", "exploration",
   "case = store on node A (payload sizes 0,1,63,64,65,4 KiB,70000 / 1 MiB thorough; (t,n) incl. (1,1),(255,255); chunk ids whose ChaCha counter wraps) then local fetch, held bytes vs reference ChaCha20 under the key reconstructed by an independent GF(256) Lagrange, "
   "replica import + fetch on node B, the CLI's decrypt_chunk_with_manifest; in half of the cases the same chunk id is then stored again (same payload 2/3, other payload 1/3) and local fetch, held bytes, replica import and fetch on B (which knows the first replica) are checked against the second manifest; then 8-12 corruptions (ciphertext bit flips/truncation/extension, manifest hash/nonce/share byte/share index/threshold/id) on fresh nodes: must return nullopt and leave state unchanged unless the mutated pair is still consistent; distinct = (size, t, n, id byte)",
-  [H("node", "h_node", 600, 60000, hprop="C11")], [A_SAN, A_OSSL, A_VCLK],
+  [H("node", "h_node", 600, 25000, hprop="C11")], [A_SAN, A_OSSL, A_VCLK],
   {"roundtrip.stores": 500, "roundtrip.replica-imports": 400, "tamper.attempts": 2000, "roundtrip.repeated-stores": 150})
 
 P("C19", "exploration",
@@ -184,13 +184,13 @@ P("C22", "exploration",
 P("C23", "exploration",
   "case = history of 8..57 REQUEST (incl. repeats of an in-flight (peer,chunk) and unknown chunks) / ACK / tick / clock (timeout-1, timeout, timeout+1) steps from 1..4 socketpair peers with limits {0..3} x {0..3}; "
   "uploads are tracked from CHUNK frames actually sent until the peer's ACK or the timeout; oracle: in-flight <= limits at every step, exactly one negative ACK for an unservable request, a peer with no in-flight upload holds no slot after the scheduler ran; distinct = sequence hash",
-  [H("main", "h_node2", 2000, 300000, hprop="C23")], [A_SAN, A_VCLK],
+  [H("main", "h_node2", 2000, 200000, hprop="C23")], [A_SAN, A_VCLK],
   {"uploads.chunk-frames": 5000, "uploads.repeated-request-while-in-flight": 300, "uploads.timeouts": 200, "uploads.unservable-requests": 500, "uploads.slot-release-checks": 10000})
 
 P("C24", "exploration",
   "case = history of 8..67 assigned-fetch ANNOUNCEs (incl. re-announces of an in-flight fetch from the same or another peer), chunk arrivals, ticks and clock steps (next_attempt-1ns / exact / +1ns) with peers that do / do not have a session (send succeeds / fails) and providers whose session goes away in the middle of the history (sends that succeeded start to fail); limits 0..3, back-off 1..5 s doubling to <= 125 s, attempt limit 0..12; "
   "oracle after every step: per-peer in-flight <= limit and equal to the node's counter (absent when zero), failed-attempt delays = initial*2^(k-1) capped at max (plateau after 8 doublings accepted), a send that fails with the attempt limit already used up is never scheduled again (decided from the observed history), after a scheduling pass no fetch whose chunk is held / manifest expired / attempts exhausted; finally nothing pending; distinct = sequence hash",
-  [H("main", "h_node2", 2000, 300000, hprop="C24")], [A_SAN, A_VCLK, "in-flight is read from the node's pending table (hooked state); only failed attempts count towards the attempt limit (docs: 'cap on retries')"],
+  [H("main", "h_node2", 2000, 200000, hprop="C24")], [A_SAN, A_VCLK, "in-flight is read from the node's pending table (hooked state); only failed attempts count towards the attempt limit (docs: 'cap on retries')"],
   {"fetch.request-frames": 2000, "fetch.backoff-delays-checked": 2000, "fetch.reannounce-of-in-flight-fetch": 200, "fetch.termination-checks": 3000, "fetch.chunk-arrivals": 300, "fetch.providers-gone-away": 300})
 
 P("C34", "exploration",
@@ -205,7 +205,7 @@ P("C25", "exploration",
   "token streams in send order, closing one side gives the other EOF; distinct = operation-sequence hash.  Second part (threaded): the real EventLoop::run thread (epoll) serves 1..4 target, 1..6 connector and 0..2 garbage client threads "
   "(competing connectors, bursts larger than the socket buffers, abrupt closes); black-box oracle on what each connection received: bytes of at most one sender, only of a connector/target pair whose CONNECT was answered OK, BEGIN+identity first, "
   "a prefix of what the partner sent, and complete once the loop is joined and leftover events are served single-threaded",
-  [H("stepped", "h_relay", 3000, 300000, hprop="C25"), H("threaded", "h_relay", 64, 6000, hprop="C25t", qworkers=8)], [A_SAN, "bridge facts (state, partner) are read from the server's session objects; loopback TCP delivery is awaited with FIONREAD/poll, reads are exact-count"],
+  [H("stepped", "h_relay", 3000, 200000, hprop="C25"), H("threaded", "h_relay", 64, 6000, hprop="C25t", qworkers=8)], [A_SAN, "bridge facts (state, partner) are read from the server's session objects; loopback TCP delivery is awaited with FIONREAD/poll, reads are exact-count"],
   {"relay.forwarding-steps-observed": 1000, "delivery.bridge-directions-checked": 300, "disconnect.bridge-teardowns-checked": 150, "ops.re-register-while-claimed": 100,
    "threaded.runs": 60, "threaded.bridges-observed": 20, "threaded.complete-directions-checked": 20})
 
@@ -213,7 +213,7 @@ P("C26", "exploration",
   "case = stepped run of 1..6 TCP clients sending partial lines, every prefix of valid dialogue pieces, 1 MiB lines without newline, CRLF, NUL/binary, malformed commands, identity fragments of 0..32 bytes, then leaving in random order (graceful FIN or RST); "
   "oracle after stepping to quiescence: sessions_ and registered_ empty, /proc/self/fd back to the pre-client set, the server still accepts and answers a new client, no sanitizer report; distinct = operation-sequence hash.  Second part (threaded): the same release oracle after a run in which the real "
   "EventLoop::run thread served concurrent target / connector / garbage client threads (the path through epoll and the registered callbacks, which the stepped part bypasses)",
-  [H("stepped", "h_relay", 2000, 300000, hprop="C26"), H("threaded", "h_relay", 64, 6000, hprop="C26t", qworkers=8)], [A_SAN],
+  [H("stepped", "h_relay", 2000, 100000, hprop="C26"), H("threaded", "h_relay", 64, 6000, hprop="C26t", qworkers=8)], [A_SAN],
   {"release.all-clients-left": 1500, "release.post-run-probes": 1500, "streams.huge-lines": 300, "streams.abrupt-resets": 500, "threaded.runs": 60})
 
 P("C27", "exploration",
@@ -239,7 +239,7 @@ P("C29", "exploration",
 P("C35", "exploration",
   "part control: 8 hostile connections per case to the in-process ControlServer (header without colon, 16 KiB+ lines, no newline at all, PAYLOAD-LENGTH variants, empty / huge / unwritable OUT:, garbage manifests, unknown commands, binary, truncated payloads, 2000 headers, CRLF), client closing with or without reading the reply, SIGPIPE left at its default as in `eph serve`; "
   "after every hostile connection an honest PING must be answered; part transport (h_transport): raw TCP peer before and after a genuine handshake; any sanitizer report, terminate or fatal signal is a violation; distinct = hostile-kind sequence",
-  [H("control", "h_control", 400, 60000, hprop="C35c"), H("transport", "h_transport", 120, 20000, hprop="C35t", qworkers=8),
+  [H("control", "h_control", 400, 30000, hprop="C35c"), H("transport", "h_transport", 120, 8000, hprop="C35t", qworkers=8),
    dict(name="daemon", py=lambda ctx: drv_cli.c35_daemon(ctx), targets=["ephemeralnet", "ephemeralnet_relay", "mtool"])],
   [A_SAN, "bounded progress: an honest client / peer must be served within the watchdog (25 s / 20 s) while a silent or half-sent connection is open"],
   {"control.hostile-connections": 3000, "control.honest-pings-served": 3000, "control.stall-probes": 2, "transport.post-handshake-hostile-messages": 800, "transport.adversarial-manifest-then-chunk": 200,
